@@ -225,6 +225,9 @@ class CallEngine(Engine):
         sc = active[:rng.randint(0, len(active))]
         body.append(['bind', '/'.join(sc + [rng.choice(ginm.spellings(c['sel'], regs)) + '.' + rng.choice(names)]),
                      self.gen_value(rng, regs)])
+      if active and rng.random() < 0.3:
+        # an attempt to open an invalid scope inside the block: rejected, and the enclosing scope stays active
+        body.append(['with', rng.choice(['1x', 'a b', ['s1', 'b b'], 's1//s2', {}]), [['curscope']]])
       body += [self.gen_call(rng, rng.choice(regs)) for _ in range(rng.randint(1, 3))] + list(calls[:2])
     # enter `active` through a random mix of forms
     rest = list(active)
